@@ -513,7 +513,24 @@ Fixpoint fields_eqb (a b : list (string * string)) : bool :=
   | _, _ => false
   end.
 
+(* the synchronisation skeleton: which functions mention which synchronisation vocabulary, how often.
+   The only places are the two lazily filled caches of the codec (the per-type encoder cache with its
+   wait group, the per-type field cache); a change here changes what concurrent first uses may observe
+   (C10) and has to be looked at before the discipline is accepted again *)
+Definition expected_syncfacts : list (string * string * nat) :=
+  [("json:cachedTypeFields", ".Load", 1); ("json:cachedTypeFields", ".LoadOrStore", 1);
+   ("json:typeEncoder", ".Add", 1); ("json:typeEncoder", ".Done", 1); ("json:typeEncoder", ".Load", 1);
+   ("json:typeEncoder", ".LoadOrStore", 1); ("json:typeEncoder", ".Store", 1); ("json:typeEncoder", ".Wait", 1);
+   ("json:typeEncoder", "sync.WaitGroup", 1)]%nat.
+
+Fixpoint sync_eqb (a b : list (string * string * nat)) : bool :=
+  match a, b with
+  | [], [] => true
+  | (x1, y1, n1) :: a', (x2, y2, n2) :: b' => String.eqb x1 x2 && String.eqb y1 y2 && Nat.eqb n1 n2 && sync_eqb a' b'
+  | _, _ => false
+  end.
+
 Definition discipline_ok : bool :=
   forallb gvar_ok gvars && forallb poolfact_ok poolfacts &&
   match pwrites with [] => true | _ => false end && match gostmts with [] => true | _ => false end &&
-  fields_eqb poolfields expected_poolfields.
+  fields_eqb poolfields expected_poolfields && sync_eqb syncfacts expected_syncfacts.
